@@ -1,5 +1,5 @@
 // govc:pkg cep
-// govc:bound 10 directed pattern/stream pairs under every SKIP mode, then 3000 random greedy patterns (30000 with GOVC_BOUND=thorough) over <= 4 variables built from sequence, alternation, group, ?, *, +, {n}, {n,m} and PERMUTE (never matching the empty word) x every SKIP mode x one stream of <= 14 rows split over two interleaved partitions; DEFINE conditions on the current row only, once with disjoint and once with overlapping variables; no WITHIN expiry
+// govc:bound 10 directed pattern/stream pairs under every SKIP mode, then 3000 random greedy patterns (30000 with GOVC_BOUND=thorough) over <= 4 variables built from sequence, alternation, group, ?, *, +, {n}, {n,m} and PERMUTE (never matching the empty word) x every SKIP mode x one stream of <= 14 rows split over two interleaved partitions; DEFINE conditions on the current row only, once with disjoint and once with overlapping variables; no WITHIN expiry; plus 200 (thorough: 1500) streams each for two DEFINE shapes that aggregate over the match so far (running SUM budget, comparison with AVG of an earlier variable)
 // Bounded stand-in (NOT a proof) for the NFA construction and the run bookkeeping (closures and recursion over pattern
 // trees, outside the contracts): the matches of a partition are exactly those of a reference matcher that works on the
 // pattern tree directly - starts leftmost-first under the SKIP rule, the longest match per start, MATCH_NUMBER 1,2,3..,
@@ -447,6 +447,107 @@ func TestGovcBounded_cep_permutations(t *testing.T) {
 		}
 	}
 	fmt.Printf("GOVC-BOUNDED-DONE cep_permutations cases=%d failures=%d\n", cases, fails)
+	if fails > 0 {
+		t.Fail()
+	}
+}
+
+// DEFINE conditions that look back at the match so far through an aggregate: a running budget (A AS SUM(v) <= B, the
+// candidate row included) and a comparison with the average of an earlier variable (B AS ... v > AVG(A.v)).
+func TestGovcBounded_cep_define_aggregates(t *testing.T) {
+	iters := 200
+	if os.Getenv("GOVC_BOUND") == "thorough" {
+		iters = 1500
+	}
+	rng := rand.New(rand.NewSource(151))
+	cases, fails := 0, 0
+	run := func(spec *types.MatchRecognizeSpec, rows []map[string]any) (string, error) {
+		e, err := NewEngine(spec)
+		if err != nil {
+			return "", err
+		}
+		out := ""
+		emit := func(os []map[string]any) {
+			for _, o := range os {
+				out += fmt.Sprintf("[%d..%d n=%d]", govcNum(o["s"]), govcNum(o["e"]), govcNum(o["n"]))
+			}
+		}
+		for _, r := range rows {
+			emit(e.Process(r, ""))
+		}
+		emit(e.Flush())
+		return out, nil
+	}
+	measures := []types.Measure{{Expr: "FIRST(ts)", Alias: "s"}, {Expr: "LAST(ts)", Alias: "e"}, {Expr: "COUNT(*)", Alias: "n"}}
+	lit := func(s string) *types.PatternNode { return &types.PatternNode{Kind: types.PatternLiteral, Symbol: s} }
+	plus := func(p *types.PatternNode) *types.PatternNode {
+		return &types.PatternNode{Kind: types.PatternRepetition, Children: []*types.PatternNode{p}, Quant: &types.Quantifier{Min: 1, Max: -1, Greedy: true}}
+	}
+	for it := 0; it < iters; it++ {
+		n := 4 + rng.Intn(9)
+		vs := make([]int, n)
+		ks := make([]int, n)
+		var rows []map[string]any
+		for i := range vs {
+			vs[i], ks[i] = 1+rng.Intn(6), 1+rng.Intn(2)
+			rows = append(rows, map[string]any{"ts": i + 1, "v": vs[i], "k": ks[i]})
+		}
+		// 1. running budget
+		cases++
+		budget := 5 + rng.Intn(11)
+		want := ""
+		for s := 0; s < n; {
+			sum, e := 0, s-1
+			for j := s; j < n && sum+vs[j] <= budget; j++ {
+				sum += vs[j]
+				e = j
+			}
+			if e < s {
+				s++
+				continue
+			}
+			want += fmt.Sprintf("[%d..%d n=%d]", s+1, e+1, e-s+1)
+			s = e + 1
+		}
+		got, err := run(&types.MatchRecognizeSpec{Pattern: plus(lit("A")), Defines: []types.MatchDefine{{Symbol: "A", Cond: fmt.Sprintf("SUM(v) <= %d", budget)}},
+			OrderBy: []types.OrderByField{{Expression: "ts"}}, Measures: measures}, rows)
+		if err != nil || got != want {
+			fails++
+			if fails <= 8 {
+				fmt.Printf("GOVC-BOUNDED-FAIL cep_define_aggregates A+ with A AS SUM(v) <= %d on v=%v: got %q (err %v), want %q\n", budget, vs, got, err, want)
+			}
+		}
+		// 2. average of an earlier variable
+		cases++
+		want = ""
+		for s := 0; s < n; {
+			if ks[s] != 1 {
+				s++
+				continue
+			}
+			j, sum := s, 0
+			for j < n && ks[j] == 1 {
+				sum += vs[j]
+				j++
+			}
+			if j < n && ks[j] == 2 && float64(vs[j]) > float64(sum)/float64(j-s) {
+				want += fmt.Sprintf("[%d..%d n=%d]", s+1, j+1, j-s+1)
+				s = j + 1
+			} else {
+				s++
+			}
+		}
+		got, err = run(&types.MatchRecognizeSpec{Pattern: &types.PatternNode{Kind: types.PatternSequence, Children: []*types.PatternNode{plus(lit("A")), lit("B")}},
+			Defines: []types.MatchDefine{{Symbol: "A", Cond: "k == 1"}, {Symbol: "B", Cond: "k == 2 AND v > AVG(A.v)"}},
+			OrderBy: []types.OrderByField{{Expression: "ts"}}, Measures: measures}, rows)
+		if err != nil || got != want {
+			fails++
+			if fails <= 8 {
+				fmt.Printf("GOVC-BOUNDED-FAIL cep_define_aggregates (A+ B) with B AS k == 2 AND v > AVG(A.v) on k=%v v=%v: got %q (err %v), want %q\n", ks, vs, got, err, want)
+			}
+		}
+	}
+	fmt.Printf("GOVC-BOUNDED-DONE cep_define_aggregates cases=%d failures=%d\n", cases, fails)
 	if fails > 0 {
 		t.Fail()
 	}
